@@ -1,6 +1,6 @@
 #!/bin/bash
-# Re-runs every kept seeded change (first wave: seeded/_incoming + seeded/_own, second wave:
-# seeded/_incoming2) through the quick check of its property; writes .build/mutant_results.txt
+# Re-runs every kept seeded change (first wave: seeded/_incoming + seeded/_own, later waves:
+# seeded/_incoming2..4) through the quick check of its property; writes .build/mutant_results.txt
 # (wave 1) and .build/mutant_results2.txt (wave 2).  Needs exclusive use of /repo's working tree.
 cd /verif
 : > .build/mutant_results.txt
@@ -9,4 +9,8 @@ lib/mutant.sh /verif/seeded/_own/C05a/change_1.diff C05 quick >> .build/mutant_r
 lib/mutant.sh /verif/seeded/_own/R952/change_1.diff C01 quick >> .build/mutant_results.txt 2>&1
 : > .build/mutant_results2.txt
 for d in seeded/_incoming2/C??; do id=$(basename $d); for n in 1 2; do [ -f $d/change_$n.diff ] && lib/mutant.sh /verif/$d/change_$n.diff $id quick >> .build/mutant_results2.txt 2>&1; done; done
-echo ALLDONE >> .build/mutant_results2.txt
+: > .build/mutant_results3.txt
+for d in seeded/_incoming3/C??; do id=$(basename $d); for n in 1 2; do [ -f $d/change_$n.diff ] && lib/mutant.sh /verif/$d/change_$n.diff $id quick >> .build/mutant_results3.txt 2>&1; done; done
+: > .build/mutant_results4.txt
+for d in seeded/_incoming4/C??; do id=$(basename $d); for n in 1 2; do [ -f $d/change_$n.diff ] && lib/mutant.sh /verif/$d/change_$n.diff $id quick >> .build/mutant_results4.txt 2>&1; done; done
+echo ALLDONE >> .build/mutant_results4.txt
